@@ -17,13 +17,14 @@ from checks import _translator
 
 THEOREMS = {"Properties.C10gen": ["C10_generated_tenant_ids_match_model", "C10_generated_tenant_ids_round_trip",
                                   "C10_generated_range_check", "C10gen_nonvacuous"],
-            "Properties.C10": ["C10_noninterference_partial", "C10_other_tenant_step_invisible",
+            "Properties.C10": ["C10_noninterference", "C10_tenant_index_stable_across_restart", "C10_tenant_index_dedup", "C10_other_tenant_step_invisible",
                                "C10_search_containment", "C10_bulk_search_containment",
                                "C10_search_count_refuted", "C10_flush_count_refuted",
                                "C10_reserved_keys", "C10_unauthenticated_refused", "C10_nonvacuous"]}
 PINS = {"Properties.C10": {
-    "_preamble": "From Coq Require Import List NArith ZArith Bool String. From Kyro Require Import Model.Server Proofs.ServerProofs Proofs.ServerNI. Open Scope N_scope.",
-    "C10_noninterference_partial": "forall (idx_str : N -> str) (score : Z -> Z), (forall a b, idx_str a = idx_str b -> a = b) -> forall (cfg : config) (A B : N) (cs : list call), (forall k ki, nget (c_keys cfg) k = Some ki -> k_tenant ki = A -> k_admin ki = false) -> A <> B -> (forall c, In c cs -> callerA cfg A c = true -> covered (c_req c) = true) -> responses_of cfg A cs (run idx_str score cfg cs) = responses_of cfg A (remove_tenant cfg B cs) (run idx_str score cfg (remove_tenant cfg B cs))",
+    "_preamble": "From Coq Require Import List NArith ZArith Bool String. From Kyro Require Import Model.Server Proofs.ServerProofs Proofs.ServerNI Proofs.TenantMapProofs. Open Scope N_scope.",
+    "C10_noninterference": "forall (idx_str : N -> str) (score : Z -> Z), (forall a b, idx_str a = idx_str b -> a = b) -> forall (cfg : config) (A B : N) (cs : list call), (forall k ki, nget (c_keys cfg) k = Some ki -> k_tenant ki = A -> k_admin ki = false) -> A <> B -> responses_of cfg A cs (run idx_str score cfg cs) = responses_of cfg A (remove_tenant cfg B cs) (run idx_str score cfg (remove_tenant cfg B cs))",
+    "C10_tenant_index_stable_across_restart": "forall (first_keys : list str) (later : list (list str)), let m0 := tmap_create first_keys in let m := fold_left tmap_ensure_all later m0 in tm_ok m /\\ (forall t i, tm_get m0 t = Some i -> tm_get m t = Some i) /\\ (forall t, tm_get m t = None -> tm_get (tmap_ensure m t) t = Some (tlen m) /\\ (forall t' i, tm_get m t' = Some i -> i <> tlen m /\\ tm_get (tmap_ensure m t) t' = Some i))",
     "C10_unauthenticated_refused": "forall idx_str score cfg s c, (c_key c = None \\/ (exists k, c_key c = Some k /\\ nget (c_keys cfg) k = None) \\/ (exists k ki, c_key c = Some k /\\ nget (c_keys cfg) k = Some ki /\\ k_enabled ki = false)) -> step idx_str score cfg s c = (s, Err (if is_http (c_req c) then Http401 else Unauthenticated))",
 },
     "Properties.C10gen": {
